@@ -57,6 +57,18 @@ class Facts:
         self.consts = {c["path"]: c for c in data["consts"]}
         self.fns = {f["path"]: f for f in data["fns"]}
         self.hir = {h["path"]: h for h in data["hir"]}
+        # the destructuring-assignment desugaring binds several temporaries under the one name `lhs` (distinct ids): make the names distinct
+        def _uniq(n):
+            if isinstance(n, dict):
+                if n.get("name") == "lhs" and n.get("id") and (n.get("p") == "bind" or (n.get("k") == "path" and n.get("res") == "local")):
+                    n["name"] = "lhs#%s" % n["id"]
+                for v in n.values():
+                    _uniq(v)
+            elif isinstance(n, list):
+                for v in n:
+                    _uniq(v)
+        for h in self.hir.values():
+            _uniq(h)
         self.mir = {m["path"]: m for m in data["mir"]}
         self.overflow_checks = data.get("overflow_checks")
 
